@@ -11,6 +11,7 @@ import (
 	"path/filepath"
 	"sort"
 	"strings"
+	"sync"
 
 	metav1 "k8s.io/apimachinery/pkg/apis/meta/v1"
 	"k8s.io/client-go/tools/cache"
@@ -18,7 +19,9 @@ import (
 
 	proxyv1alpha1 "github.com/kubewharf/kubegateway/pkg/apis/proxy/v1alpha1"
 	proxylisters "github.com/kubewharf/kubegateway/pkg/client/listers/proxy/v1alpha1"
+	gatewayfake "github.com/kubewharf/kubegateway/pkg/client/kubernetes/fake"
 	"github.com/kubewharf/kubegateway/pkg/ratelimiter/limiter"
+	k8sstore "github.com/kubewharf/kubegateway/pkg/ratelimiter/store/k8s"
 
 	"verifharness/rig"
 )
@@ -579,9 +582,117 @@ func fixClaims(h History) History {
 	return h
 }
 
+// ---------------------------------------------------------------------------------------------
+// concurrent overlap of honest reports (judge only: the recorded quotas at quiescence)
+
+type Concurrent struct {
+	Kind      string `json:"kind"`  // "concurrent"
+	Store     string `json:"store"` // local | k8s (API-backed store over a fake clientset, write-through)
+	Total     int32  `json:"total"`
+	Instances int    `json:"instances"`
+	Rounds    int    `json:"rounds"`
+	WarmUp    int    `json:"warmUp"` // sequential rounds before the concurrent ones (few: capacity is still being contended)
+}
+
+func runConcurrent(c *rig.Ctx, cc Concurrent) bool {
+	h := History{Total: cc.Total}
+	indexer := cache.NewIndexer(cache.MetaNamespaceKeyFunc, cache.Indexers{})
+	lister := proxylisters.NewUpstreamClusterLister(indexer)
+	var l *limiter.VerifC07Limiter
+	if cc.Store == "k8s" {
+		l = limiter.VerifC07NewLimiterWithStore(lister, k8sstore.NewK8sCacheStore(gatewayfake.NewSimpleClientset(), 0, 0, 1))
+	} else {
+		l = limiter.VerifC07NewLimiter(lister)
+	}
+	indexer.Add(clusterObj(h, h.Total, 0))
+	if err := l.HandleCluster(clusterObj(h, h.Total, 0)); err != nil {
+		c.Fail(rig.Failure{Kind: "diff", Class: "c07.history-harness", What: "HandleCluster: " + err.Error(), Case: cc})
+		return false
+	}
+	ids := []string{}
+	for i := 0; i < cc.Instances; i++ {
+		ids = append(ids, instName(i))
+	}
+	l.SetClients(ids)
+	last := make([]int32, cc.Instances)
+	report := func(i int) {
+		cond := &proxyv1alpha1.RateLimitCondition{ObjectMeta: metav1.ObjectMeta{Name: condName(i)},
+			Spec: proxyv1alpha1.RateLimitSpec{UpstreamCluster: "up", Instance: instName(i),
+				LimitItemConfigurations: []proxyv1alpha1.RateLimitItemConfiguration{{Name: "s", Strategy: proxyv1alpha1.GlobalAllocateLimit, LimitItemDetail: detail(false, last[i], 0)}}},
+			Status: proxyv1alpha1.RateLimitStatus{LimitItemStatuses: []proxyv1alpha1.RateLimitItemStatus{{Name: "s", LimitItemDetail: detail(false, last[i], 0), RequestLevel: 100}}}}
+		rig.Recover(func() {
+			res, err := l.Limiter().UpdateRateLimitConditionStatus("up", cond)
+			if err == nil {
+				for _, it := range res.Spec.LimitItemConfigurations {
+					if it.Name == "s" {
+						last[i], _ = quotaOf(it.LimitItemDetail)
+					}
+				}
+			}
+		})
+	}
+	recorded := func() ([][2]int64, int64) {
+		qs, sum := [][2]int64{}, int64(0)
+		for _, cd := range l.Store.ListUpstream("up") {
+			if cd.Name == "up.state" {
+				continue
+			}
+			var id int
+			fmt.Sscanf(cd.Name, "up.gw-%d", &id)
+			for _, it := range cd.Spec.LimitItemConfigurations {
+				if it.Name == "s" {
+					q, _ := quotaOf(it.LimitItemDetail)
+					qs = append(qs, [2]int64{int64(id), int64(q)})
+					sum += int64(q)
+				}
+			}
+		}
+		sort.Slice(qs, func(a, b int) bool { return qs[a][0] < qs[b][0] })
+		return qs, sum
+	}
+	// sequential warm-up: every instance is busy, the pool fills up
+	for r := 0; r < cc.WarmUp; r++ {
+		for i := 0; i < cc.Instances; i++ {
+			report(i)
+		}
+	}
+	for r := 0; r < cc.Rounds; r++ {
+		before, _ := recorded()
+		var wg sync.WaitGroup
+		start := make(chan struct{})
+		for i := 0; i < cc.Instances; i++ {
+			wg.Add(1)
+			go func(i int) {
+				defer wg.Done()
+				<-start
+				// several reports back to back, so that the reads of one report interleave with the saves of the others
+				for k := 0; k < 1+i%2; k++ {
+					report(i)
+				}
+			}(i)
+		}
+		close(start)
+		wg.Wait()
+		qs, sum := recorded()
+		var ok bool
+		c.Model("C07.inv", map[string]interface{}{"total": cc.Total, "recSum": sum, "quotas": qs}, &ok)
+		if !ok {
+			c.Fail(rig.Failure{Kind: "judge", Class: "c07.concurrent-overcommit", Case: cc, Impl: map[string]interface{}{"before": before, "after": qs, "sum": sum},
+				What: fmt.Sprintf("%s store: after a round of %d concurrent honest reports the quotas on record sum to %d at limit %d (more than the limit plus the instances held at 1); before the round: %v", cc.Store, cc.Instances, sum, cc.Total, before)})
+			return false
+		}
+	}
+	return true
+}
+
 func runAny(c *rig.Ctx, raw json.RawMessage, record bool) bool {
 	var k struct{ Kind string }
 	json.Unmarshal(raw, &k)
+	if k.Kind == "concurrent" {
+		var cc Concurrent
+		json.Unmarshal(raw, &cc)
+		return runConcurrent(c, cc)
+	}
 	if k.Kind == "history" {
 		var h History
 		json.Unmarshal(raw, &h)
@@ -626,13 +737,21 @@ func main() {
 			n = 0
 			c.Note("the export shim for calculateNextQuota no longer builds: the pure-function stream is skipped, histories through UpdateRateLimitConditionStatus still run")
 		}
-		for i := 0; i < n && c.NFailures() < 5; i++ {
+		for i := 0; i < n && !c.Stop(); i++ {
 			p := genPure(c)
 			c.Case(rig.Canon(p), p.Total >= 1, pureBucket(p), func() interface{} { return p })
 			runPure(c, p, true)
 		}
+		// concurrent overlap of honest reports on both stores (the judge is the history invariant at quiescence)
+		// (quotas only move while the schema fills up, so every trial starts from an empty record)
+		for i, n := 0, c.Budget(200, 3000); i < n && !c.Stop(); i++ {
+			cc := Concurrent{Kind: "concurrent", Store: []string{"local", "k8s"}[i%2], Total: rig.Pick(c.Rng, []int32{300, 1000, 5000}), Instances: 4 + c.Rng.Intn(13), Rounds: 12, WarmUp: c.Rng.Intn(3)}
+			c.Case(rig.Canon(cc)+fmt.Sprint(i), true, "concurrent:"+cc.Store, func() interface{} { return cc })
+			c.Trace()
+			runConcurrent(c, cc)
+		}
 		nh := c.Budget(300, 12000)
-		for i := 0; i < nh && c.NFailures() < 5; i++ {
+		for i := 0; i < nh && !c.Stop(); i++ {
 			h := fixClaims(genHistory(c))
 			reports := 0
 			for _, op := range h.Ops {
